@@ -7,14 +7,17 @@ LeafExecuteContext.SendResponse).  Every theorem quantifies over ALL stage trees
 assignments and ALL schedules (`Reachable` = every sequence of atomic steps of every goroutine).
 
 `cfg.arg` is the regenerated fact "which value completeStage hands to complete":
-`own` (the source as it is) or `first` (fixes/C19-first-error.patch).
+`own` (the source as it is) or `first` (fixes/C19-first-error.patch); `cfg.stageRecover` the
+regenerated fact "executeStage recovers a panic of the stage it started and completes it"
+(`false` = the source as it is, `true` = fixes/C19-stage-recover.patch).
 
   at_most_once                    full strength, both variants
   exactly_once_no_panic           full strength, both variants
   error_carried                   full strength for `first`;  FALSE for `own` (Neg.error_carried_fails_own)
-  error_carried_partial           both variants: error carried when the stage that completes last failed
-  completion_under_panic_partial  both variants: panics only where the code recovers *and* completes them
-  (full-strength completion under panic is FALSE for both variants: Neg.completion_under_panic_fails)
+  error_carried_partial           all variants: error carried when the stage that completes last failed
+  completion_under_panic          full strength for `stageRecover` (fixes/C19-stage-recover.patch);
+                                  FALSE without it (Neg.completion_under_panic_fails)
+  completion_under_panic_partial  all variants: panics only where the code recovers *and* completes them
 -/
 import LinVerif.Lemmas.C19Carried
 import LinVerif.Lemmas.C19Recover
@@ -85,7 +88,7 @@ theorem exactly_once_no_panic (cfg : Cfg) (root : Stage) (hnp : root.noPanic = t
     (hr : Reachable cfg (init root) s) (ht : Terminal s) :
     ∃ f, s.sh.fired = [f] ∧ f.finished = s.sh.registered ∧ f.registered = s.sh.registered
       ∧ s.sh.finished = s.sh.registered ∧ s.sh.pending = 0 := by
-  rcases invNP_reachable hnp hr with hi | hm
+  rcases invNP_reachable (Or.inr hnp) hr with hi | hm
   · exact absurd ht (initPhase_not_terminal hi)
   · exact mainNP_terminal hm (invOnce_reachable hr) ht
 
@@ -107,12 +110,12 @@ theorem runs_terminate (cfg : Cfg) (root : Stage) :
 
 /-! ## the error is carried -/
 
-/-- **error_carried** (full strength; the repaired step order `complete(sm.firstError())`).
-For every tree, outcome assignment and schedule: if some stage had returned an error or panicked
-when the callback fired, the callback's argument is an error. -/
-theorem error_carried : ErrorCarried ⟨.first⟩ := by
+/-- **error_carried** (full strength; the repaired step order `complete(sm.firstError())`, with or
+without the stage-level recover).  For every tree, outcome assignment and schedule: if some stage
+had returned an error or panicked when the callback fired, the callback's argument is an error. -/
+theorem error_carried (sr : Bool) : ErrorCarried ⟨.first, sr⟩ := by
   intro root s hr f hf
-  rcases invEC_reachable (cfg := ⟨.first⟩) rfl hr with hi | hm
+  rcases invEC_reachable (cfg := ⟨.first, sr⟩) rfl hr with hi | hm
   · rw [hi.1] at hf; simp [init] at hf
   · exact hm.res f hf
 
@@ -133,9 +136,33 @@ code recovers and completes it — it is a pooled stage (its own task panics: `e
 theorem completion_under_panic_partial (cfg : Cfg) (root : Stage)
     (hrec : root.recoverable true = true) : CompletesOnce cfg root := by
   intro s hr ht
-  rcases invRec_reachable hrec hr with hi | hab
+  cases hsr : cfg.stageRecover with
+  | false =>
+    rcases invRec_reachable hsr hrec hr with hi | hab
+    · exact absurd ht (initPhase_not_terminal hi)
+    · exact (invOnce_reachable hr).2 (rec_terminal_completed hab ht)
+  | true =>
+    rcases invNP_reachable (Or.inl hsr) hr with hi | hm
+    · exact absurd ht (initPhase_not_terminal hi)
+    · obtain ⟨f, hf, _⟩ := mainNP_terminal hm (invOnce_reachable hr) ht
+      rw [hf]; rfl
+
+/-- **completion_under_panic** (full strength; the repaired `executeStage` that recovers a panic of
+the stage it started and completes that stage — with either `complete` argument).  For every tree,
+every outcome assignment *including panics anywhere* and every schedule: at the end of the run the
+callback has fired exactly once, and when it fired every stage ever started had finished. -/
+theorem completion_under_panic (arg : CompleteArg) (root : Stage) (s : State)
+    (hr : Reachable ⟨arg, true⟩ (init root) s) (ht : Terminal s) :
+    ∃ f, s.sh.fired = [f] ∧ f.finished = s.sh.registered ∧ f.registered = s.sh.registered
+      ∧ s.sh.finished = s.sh.registered ∧ s.sh.pending = 0 := by
+  rcases invNP_reachable (cfg := ⟨arg, true⟩) (Or.inl rfl) hr with hi | hm
   · exact absurd ht (initPhase_not_terminal hi)
-  · exact (invOnce_reachable hr).2 (rec_terminal_completed hab ht)
+  · exact mainNP_terminal hm (invOnce_reachable hr) ht
+
+theorem completion_under_panic_stmt (arg : CompleteArg) : CompletionUnderPanic ⟨arg, true⟩ := by
+  intro root s hr ht
+  obtain ⟨f, hf, _⟩ := completion_under_panic arg root s hr ht
+  rw [hf]; rfl
 
 /-! ## non-vacuity -/
 
@@ -158,17 +185,17 @@ example : treeR.recoverable true = true := by decide
 example : treeB.recoverable true = false := by decide
 
 /-- the hypotheses of `exactly_once_no_panic` are met by a run with concurrency and a failure -/
-example : ∃ s, Reachable ⟨.own⟩ (init treeA) s ∧ Terminal s ∧ s.sh.registered = 3 :=
-  match h : runSched ⟨.own⟩ (init treeA) schedFailLast with
+example : ∃ s, Reachable ⟨.own, false⟩ (init treeA) s ∧ Terminal s ∧ s.sh.registered = 3 :=
+  match h : runSched ⟨.own, false⟩ (init treeA) schedFailLast with
   | some s => ⟨s, runSched_reachable _ _ _ Reachable.refl h,
       terminal_of_terminalB (by
-        have : (runSched ⟨.own⟩ (init treeA) schedFailLast).map terminalB = some true := by decide
+        have : (runSched ⟨.own, false⟩ (init treeA) schedFailLast).map terminalB = some true := by decide
         rw [h] at this; simpa using this),
       by
-        have : (runSched ⟨.own⟩ (init treeA) schedFailLast).map (·.sh.registered) = some 3 := by decide
+        have : (runSched ⟨.own, false⟩ (init treeA) schedFailLast).map (·.sh.registered) = some 3 := by decide
         rw [h] at this; simpa using this⟩
   | none => by
-    have : (runSched ⟨.own⟩ (init treeA) schedFailLast).isSome = true := by decide
+    have : (runSched ⟨.own, false⟩ (init treeA) schedFailLast).isSome = true := by decide
     rw [h] at this; cases this
 
 /-! ## where the source as it is violates the property -/
@@ -178,19 +205,19 @@ namespace Neg
 /-- (a) the source as it is: pooled sibling 1 fails and completes first, pooled sibling 2 succeeds
 and completes last ⇒ exactly one callback, with `err = nil`, although a stage had failed -/
 theorem error_lost_fail_first_ok_last :
-    outcome ⟨.own⟩ treeA schedFailFirst = some ([⟨false, false, true, 3, 3⟩], 0, true) := by decide
+    outcome ⟨.own, false⟩ treeA schedFailFirst = some ([⟨false, false, true, 3, 3⟩], 0, true) := by decide
 
 /-- the reverse completion order reports the error (so the outcome depends on the schedule) -/
 theorem error_kept_fail_last :
-    outcome ⟨.own⟩ treeA schedFailLast = some ([⟨true, true, true, 3, 3⟩], 0, true) := by decide
+    outcome ⟨.own, false⟩ treeA schedFailLast = some ([⟨true, true, true, 3, 3⟩], 0, true) := by decide
 
 /-- (a), no concurrency needed: a synchronous child fails, its synchronous parent completes last
 with `nil` ⇒ the only possible run reports success -/
 theorem error_lost_sync_child :
-    outcome ⟨.own⟩ treeS (List.replicate 13 0) = some ([⟨false, false, true, 2, 2⟩], 0, true) := by decide
+    outcome ⟨.own, false⟩ treeS (List.replicate 13 0) = some ([⟨false, false, true, 2, 2⟩], 0, true) := by decide
 
 /-- the full-strength statement is false for the source as it is -/
-theorem error_carried_fails_own : ¬ ErrorCarried ⟨.own⟩ := by
+theorem error_carried_fails_own : ¬ ErrorCarried ⟨.own, false⟩ := by
   intro h
   obtain ⟨s, hr, _, hf, _⟩ := outcome_elim error_lost_fail_first_ok_last
   have := h treeA s hr ⟨false, false, true, 3, 3⟩ (by rw [hf]; simp) rfl
@@ -198,27 +225,32 @@ theorem error_carried_fails_own : ¬ ErrorCarried ⟨.own⟩ := by
 
 /-- with the repaired step order the same schedule reports the error -/
 theorem repaired_fail_first_ok_last :
-    outcome ⟨.first⟩ treeA (schedFailFirst ++ [2]) = some ([⟨true, false, true, 3, 3⟩], 0, true) := by decide
+    outcome ⟨.first, false⟩ treeA (schedFailFirst ++ [2]) = some ([⟨true, false, true, 3, 3⟩], 0, true) := by decide
 
 /-- (b) a synchronous stage panics inside a pooled parent's completion handler: it was registered
 (`pending++`) but only the parent is completed by `execTask`'s recover ⇒ the run ends with
 `pending = 1` and NO callback — in both variants -/
-theorem no_completion_sync_panic_under_async (cfg : Cfg) :
-    outcome cfg treeB (List.replicate 9 0 ++ List.replicate 7 1) = some ([], 1, true) := by
-  cases cfg with
-  | mk arg => cases arg <;> decide
+theorem no_completion_sync_panic_under_async (arg : CompleteArg) :
+    outcome ⟨arg, false⟩ treeB (List.replicate 9 0 ++ List.replicate 7 1) = some ([], 1, true) := by
+  cases arg <;> decide
 
-/-- the full-strength completion statement is false for both variants -/
-theorem completion_under_panic_fails (cfg : Cfg) : ¬ CompletionUnderPanic cfg := by
+/-- the full-strength completion statement is false without the stage-level recover, whichever
+value `completeStage` hands to `complete` -/
+theorem completion_under_panic_fails (arg : CompleteArg) : ¬ CompletionUnderPanic ⟨arg, false⟩ := by
   intro h
-  obtain ⟨s, hr, ht, hf, _⟩ := outcome_elim (no_completion_sync_panic_under_async cfg)
+  obtain ⟨s, hr, ht, hf, _⟩ := outcome_elim (no_completion_sync_panic_under_async arg)
   have := h treeB s hr ht
   rw [hf] at this
   cases this
 
+/-- with the stage-level recover the same tree completes once, with an error (given `first`) -/
+theorem repaired_sync_panic_under_async :
+    outcome ⟨.first, true⟩ treeB (List.replicate 9 0 ++ List.replicate 11 1)
+      = some ([⟨true, false, true, 3, 3⟩], 0, true) := by decide
+
 /-- the same panic in the pooled child's own task is recovered and completed -/
 theorem recovered_pooled_panic :
-    outcome ⟨.own⟩ treeR (List.replicate 12 0 ++ [2, 2, 2] ++ [1, 1, 1, 1]) = some ([⟨true, true, true, 3, 3⟩], 0, true) := by
+    outcome ⟨.own, false⟩ treeR (List.replicate 12 0 ++ [2, 2, 2] ++ [1, 1, 1, 1]) = some ([⟨true, true, true, 3, 3⟩], 0, true) := by
   decide
 
 end Neg
@@ -226,7 +258,7 @@ end Neg
 /-! ## tie to the source (regenerated facts) -/
 
 /-- the variant of the model the current source selects -/
-def currentCfg : Cfg := cfgOf Generated.C19.completePassesFirstError
+def currentCfg : Cfg := cfgOf Generated.C19.completePassesFirstError Generated.C19.stageRecoversPanic
 
 theorem tie_completeStage : Generated.C19.completeStageSteps = completeStageOrder currentCfg.arg := by decide
 theorem tie_firstError : Generated.C19.firstErrorSteps = firstErrorOrder currentCfg.arg := by decide
@@ -234,7 +266,8 @@ theorem tie_complete : Generated.C19.completeSteps = completeOrder := by decide
 theorem tie_isCompleted : Generated.C19.isCompletedSteps = isCompletedOrder := by decide
 theorem tie_register : Generated.C19.registerSteps = registerOrder := by decide
 theorem tie_pipelineExecute : Generated.C19.pipelineExecuteSteps = pipelineExecuteOrder := by decide
-theorem tie_pipelineExecuteStage : Generated.C19.pipelineExecuteStageSteps = pipelineExecuteStageOrder := by decide
+theorem tie_pipelineExecuteStage :
+    Generated.C19.pipelineExecuteStageSteps = pipelineExecuteStageOrder currentCfg.stageRecover := by decide
 theorem tie_baseStageExecute : Generated.C19.baseStageExecuteSteps = baseStageExecuteOrder := by decide
 theorem tie_baseStageIsAsync : Generated.C19.baseStageIsAsyncSteps = baseStageIsAsyncOrder := by decide
 theorem tie_execTask : Generated.C19.execTaskSteps = execTaskOrder := by decide
@@ -243,13 +276,32 @@ theorem tie_sendResponse : Generated.C19.sendResponseSteps = sendResponseOrder :
 /-- what the model decides about error propagation for the source as it is *now*: with the
 repaired step order the full-strength theorem applies, with the original one its negation -/
 theorem error_carried_current :
-    (currentCfg.arg = .first ∧ ErrorCarried currentCfg) ∨ (currentCfg.arg = .own ∧ ¬ ErrorCarried currentCfg) := by
+    (currentCfg.arg = .first ∧ ErrorCarried currentCfg) ∨
+    (currentCfg = ⟨.own, false⟩ ∧ ¬ ErrorCarried currentCfg) ∨
+    (currentCfg = ⟨.own, true⟩) := by
   cases h : Generated.C19.completePassesFirstError with
   | true =>
-    have : currentCfg = ⟨.first⟩ := by simp [currentCfg, cfgOf, h]
-    rw [this]; exact Or.inl ⟨rfl, error_carried⟩
+    have : currentCfg = ⟨.first, Generated.C19.stageRecoversPanic⟩ := by simp [currentCfg, cfgOf, h]
+    rw [this]; exact Or.inl ⟨rfl, error_carried _⟩
   | false =>
-    have : currentCfg = ⟨.own⟩ := by simp [currentCfg, cfgOf, h]
-    rw [this]; exact Or.inr ⟨rfl, Neg.error_carried_fails_own⟩
+    cases h2 : Generated.C19.stageRecoversPanic with
+    | false =>
+      have : currentCfg = ⟨.own, false⟩ := by simp [currentCfg, cfgOf, h, h2]
+      rw [this]; exact Or.inr (Or.inl ⟨rfl, Neg.error_carried_fails_own⟩)
+    | true =>
+      have : currentCfg = ⟨.own, true⟩ := by simp [currentCfg, cfgOf, h, h2]
+      exact Or.inr (Or.inr this)
+
+/-- … and about completion when stages panic -/
+theorem completion_under_panic_current :
+    (currentCfg.stageRecover = true ∧ CompletionUnderPanic currentCfg) ∨
+    (currentCfg.stageRecover = false ∧ ¬ CompletionUnderPanic currentCfg) := by
+  cases h : Generated.C19.stageRecoversPanic with
+  | true =>
+    have : currentCfg = ⟨currentCfg.arg, true⟩ := by simp [currentCfg, cfgOf, h]
+    rw [this]; exact Or.inl ⟨rfl, completion_under_panic_stmt _⟩
+  | false =>
+    have : currentCfg = ⟨currentCfg.arg, false⟩ := by simp [currentCfg, cfgOf, h]
+    rw [this]; exact Or.inr ⟨rfl, Neg.completion_under_panic_fails _⟩
 
 end LinVerif.Props.C19
